@@ -233,7 +233,7 @@ def stage_a(ctx, procs):
 def stage_b(ctx, procs):
     # ---- schemas
     (names, items), (tnames, titems) = K.par([
-        lambda: enum_run(ctx, 'schemas', ctx.pick(17, 1), procs, maxlen=4, tag='b'),     # #r1/#r1 of two-item rules
+        lambda: enum_run(ctx, 'schemas', ctx.pick(29, 1), procs, maxlen=4, tag='b'),     # #r1/#r1 of two-item rules
         lambda: enum_run(ctx, 'trees', 1, ctx.pick(2, procs), maxnodes=ctx.pick(3, 4), tag='t')])
     bad = []
     nrej = 0
